@@ -118,6 +118,38 @@ var fileGen = rapid.Custom(func(t *rapid.T) File {
 	return f
 })
 
+var smallContentGen = rapid.Custom(func(t *rapid.T) Content {
+	switch rapid.IntRange(0, 5).Draw(t, "extraKind") {
+	case 0:
+		return Content{}
+	case 1:
+		return Content{Pad: rapid.IntRange(1, 40000).Draw(t, "pad"), Seed: rapid.Uint64Range(0, 1<<40).Draw(t, "padSeed")}
+	default:
+		return Content{Data: rapid.SliceOfN(rapid.Byte(), 1, 60).Draw(t, "data")}
+	}
+})
+
+var preGen = rapid.Custom(func(t *rapid.T) PreFile {
+	p := PreFile{Of: -1}
+	if rapid.IntRange(0, 4).Draw(t, "atSourcePath") > 0 {
+		p.Of = rapid.IntRange(0, 24).Draw(t, "of")
+		p.Rel = rapid.SampledFrom([]string{"longer", "longer", "longer", "shorter", "samelen", "empty", "own"}).Draw(t, "rel")
+	} else {
+		p.Dir = rapid.IntRange(-1, 7).Draw(t, "dir")
+		p.Name = genName(t)
+	}
+	p.Extra = smallContentGen.Draw(t, "extra")
+	return p
+})
+
+var editGen = rapid.Custom(func(t *rapid.T) Edit {
+	return Edit{
+		Of:    rapid.IntRange(0, 24).Draw(t, "of"),
+		Op:    rapid.SampledFrom([]string{"shrink", "shrink", "empty", "grow", "rewrite", "delete"}).Draw(t, "op"),
+		Extra: smallContentGen.Draw(t, "extra"),
+	}
+})
+
 func genTree(t *rapid.T) TreeCase {
 	var c TreeCase
 	if rapid.IntRange(0, 5).Draw(t, "haveDirs") > 0 {
@@ -142,6 +174,13 @@ func genTree(t *rapid.T) TreeCase {
 	c.Recursive = rapid.IntRange(0, 2).Draw(t, "recursive") > 0
 	c.TrailingSlash = rapid.Bool().Draw(t, "trailingSlash")
 	c.DestExists = rapid.Bool().Draw(t, "destExists")
+	// extraction over an existing directory / a second zip+unzip round after the source changed
+	if rapid.IntRange(0, 2).Draw(t, "prepopulate") == 0 {
+		c.Pre = rapid.SliceOfN(preGen, 1, 6).Draw(t, "pre")
+	}
+	if rapid.IntRange(0, 3).Draw(t, "secondRound") == 0 {
+		c.Edits = rapid.SliceOfN(editGen, 1, 6).Draw(t, "edits")
+	}
 	c.Filter = rapid.SampledFrom([]string{"nil", "nil", "suffix", "suffix", "dir", "notdir", "none"}).Draw(t, "filter")
 	switch c.Filter {
 	case "suffix":
